@@ -67,6 +67,8 @@ inductive Behavior where
 structure GObj where
   data : Dict
   needsHash : Bool
+  /-- `binaryData`: the entries whose value is not valid UTF-8 (base64 text) -/
+  bin : Dict := []
   deriving Repr, DecidableEq
 
 /-- `appendReplaceOrMerge` for one (kind,name): `cur` is what the accumulator holds -/
@@ -75,8 +77,9 @@ def absorb (cur : Option GObj) (b : Behavior) (new : GObj) : Out GObj :=
   | none, .merge => .err "absent"
   | none, .replace => .err "absent"
   | none, _ => .ok new
-  | some old, .merge => .ok { data := over old.data new.data, needsHash := old.needsHash && new.needsHash }
-  | some old, .replace => .ok { data := new.data, needsHash := old.needsHash && new.needsHash }
+  | some old, .merge => .ok { data := over old.data new.data, needsHash := old.needsHash && new.needsHash,
+                              bin := over old.bin new.bin }
+  | some old, .replace => .ok { data := new.data, needsHash := old.needsHash && new.needsHash, bin := new.bin }
   | some _, _ => .err "exists"
 
 def absorbAll : Option GObj → List (Behavior × GObj) → Out (Option GObj)
